@@ -274,6 +274,10 @@ def run(ctx: Ctx):
             spec["R"], spec["groups"], spec["stale"] = 2, max(1, spec["groups"]), True   # stale group dropped in-stream
         if s == 2:
             spec["dma_only"] = True            # a job with device events but without any compute kernel
+        if s == 8 or (s > 8 and rng.random() < 0.3):
+            spec["tag_names"] = True
+        if s == 7:
+            spec["many_tids"] = rng.randint(31, 45)      # more distinct thread ids in one job than 30
         singles = [[]] + DOMAIN_OPTS
         pairs = []
         for _ in range(ctx.n(6, 20)):
